@@ -1,81 +1,135 @@
 (* Property C12 -- theorems only. The generic development is RG.Engine.CommentSpec (model of runCommentRules +
    handleCommentMatch with the regexp engine as an oracle); here it is instantiated with nodeText's in-range test
-   REGENERATED from /repo on this run (Gen_C03 / Inst_Render, shared with C03). *)
-From Coq Require Import List ZArith Lia Bool Arith.
+   REGENERATED from /repo on this run (Gen_C03 / Inst_Render, shared with C03) and with the declaration site of the
+   loop's match data and the statement facts of the comment-rule path read off the source (Gen_C12 / Inst_Comment). *)
+From Coq Require Import List ZArith Lia Bool Arith String.
 From RG.Base Require Import Outcome GoInt GoSlice.
 From RG.Regex Require Import Utf8 Regex Capture.
 From RG.Engine Require Import TruncateSpec RenderSpec CommentSpec.
-From RGW Require Import Gen_C03 Inst_Render.
+From RGW Require Import Gen_C03 Inst_Render Gen_C12 Inst_Comment.
 Import ListNotations.
 Local Open Scope Z_scope.
 
+(* the rule loop AS THE SOURCE DECLARES ITS MATCH DATA (gen_c12_match_data_fresh) judges every rule on that rule's own
+   submatches: whatever the loop variable holds on entry and whatever earlier rules matched (and rejected), the loop is
+   the rule-by-rule run of try_rule, a function of one rule and its own index vector only *)
+Theorem C12_match_data_fresh :
+  forall re l src off text carried rules,
+  run_loop nodeTextInRange re l src off text gen_c12_match_data_fresh carried rules =
+  run_comment_rules nodeTextInRange re l src off text rules.
+Proof. intros. rewrite c12_match_data_fresh. apply run_loop_fresh. Qed.
+Print Assumptions C12_match_data_fresh.
+
+(* the report of rule k depends only on rule k and rule k's own submatches *)
+Theorem C12_report_from_own_submatches :
+  forall re l src off text carried rules rep,
+  run_loop nodeTextInRange re l src off text gen_c12_match_data_fresh carried rules = Ok (Some rep) ->
+  exists k r res, nth_error rules k = Some (r, Some res) /\
+    try_rule nodeTextInRange re l src off text r (Some res) = Ok (Some rep) /\
+    forall j p, (j < k)%nat -> nth_error rules j = Some p -> try_rule nodeTextInRange re l src off text (fst p) (snd p) = Ok None.
+Proof. intros re l src off text carried rules rep. rewrite c12_match_data_fresh. apply report_from_own_submatches. Qed.
+Print Assumptions C12_report_from_own_submatches.
+
 (* for one comment, the first comment rule (load order) that matches and accepts reports; none after it, none before *)
 Theorem C12_first_comment_rule_wins :
-  forall l src off text rules rep,
-  run_comment_rules nodeTextInRange l src off text rules = Ok (Some rep) ->
+  forall re l src off text rules rep,
+  run_comment_rules nodeTextInRange re l src off text rules = Ok (Some rep) ->
   exists pre r m post, rules = pre ++ (r, m) :: post /\
-    try_rule nodeTextInRange l src off text r m = Ok (Some rep) /\
-    Forall (fun p => try_rule nodeTextInRange l src off text (fst p) (snd p) = Ok None) pre.
-Proof. exact (first_comment_rule_wins nodeTextInRange). Qed.
+    try_rule nodeTextInRange re l src off text r m = Ok (Some rep) /\
+    Forall (fun p => try_rule nodeTextInRange re l src off text (fst p) (snd p) = Ok None) pre.
+Proof. intros re. exact (first_comment_rule_wins nodeTextInRange re). Qed.
 Print Assumptions C12_first_comment_rule_wins.
 
 Theorem C12_no_report_means_no_rule_accepts :
-  forall l src off text rules,
-  run_comment_rules nodeTextInRange l src off text rules = Ok None ->
-  Forall (fun p => try_rule nodeTextInRange l src off text (fst p) (snd p) = Ok None) rules.
-Proof. exact (no_rule_reports nodeTextInRange). Qed.
+  forall re l src off text rules,
+  run_comment_rules nodeTextInRange re l src off text rules = Ok None ->
+  Forall (fun p => try_rule nodeTextInRange re l src off text (fst p) (snd p) = Ok None) rules.
+Proof. intros re. exact (no_rule_reports nodeTextInRange re). Qed.
 Print Assumptions C12_no_report_means_no_rule_accepts.
 
 (* the reported node covers exactly the bytes of the regexp match inside the comment (offset of the comment + match
    indices), the bytes at that span are the matched text, and a Suggest replaces exactly that span -- for every comment
    whose Text is its source (nothing stripped by the scanner), at every file offset *)
 Theorem C12_comment_span_exact :
-  forall l src off text, 0 <= off -> sub src off (off + len text) = text -> off + len text <= len src -> 0 < len text ->
-  forall r idx r0 r1 rep,
+  forall re l src off text, 0 <= off -> sub src off (off + len text) = text -> off + len text <= len src -> 0 < len text ->
+  forall r res r0 r1 rep,
   r_loc (c_rule r) = None ->
-  nth_error idx 0 = Some (r0, r1) -> 0 <= r0 -> r0 <= r1 -> r1 <= len text ->
-  try_rule nodeTextInRange l src off text r (Some idx) = Ok (Some rep) ->
+  nth_error res 0 = Some r0 -> nth_error res 1 = Some r1 -> 0 <= r0 -> r0 <= r1 -> r1 <= len text ->
+  try_rule nodeTextInRange re l src off text r (Some res) = Ok (Some rep) ->
   rep_pos rep = off + r0 /\ rep_end rep = off + r1 /\
   off <= rep_pos rep /\ rep_end rep <= off + len text /\
   sub src (rep_pos rep) (rep_end rep) = sub text r0 r1 /\
   (forall f t s, rep_sugg rep = Some (f, t, s) -> f = off + r0 /\ t = off + r1).
-Proof. intros l src off text H1 H2 H3 H4. exact (comment_span_exact nodeTextInRange l src off text in_range_spec H1 H2 H3 H4). Qed.
+Proof. intros re l src off text H1 H2 H3 H4. exact (comment_span_exact nodeTextInRange re l src off text in_range_spec H1 H2 H3 H4). Qed.
 Print Assumptions C12_comment_span_exact.
 
-(* a named group is bound by its regexp group index (unnamed groups never shift the mapping) to exactly its submatch
-   text and span, or to the empty text when it did not participate *)
+(* a named group is bound by its regexp group index i (result[2i], result[2i+1]; unnamed groups never shift the mapping)
+   to exactly its submatch text and span, or to the empty text when it did not participate *)
 Theorem C12_groups_interpolate :
   forall src off text, 0 <= off -> sub src off (off + len text) = text -> off + len text <= len src -> 0 < len text ->
-  forall idx names caps i name b e,
-  group_caps nodeTextInRange src off text names idx = Ok caps ->
+  forall res names caps i name b e,
+  group_caps nodeTextInRange src off text names res = Ok caps ->
   NoDup (filter (fun n => negb (is_empty n)) names) ->
   nth_error names i = Some name -> i <> 0%nat -> name <> [] ->
-  nth_error idx i = Some (b, e) ->
+  nth_error res (2 * i) = Some b -> nth_error res (2 * i + 1) = Some e ->
   (b < 0 \/ e < 0 \/ (0 <= b /\ b <= e /\ e <= len text)) ->
   exists nd, captured_by_name name caps = Some nd /\ group_node_ok off text nd b e.
-Proof. intros src off text H1 H2 H3 H4 idx. exact (groups_interpolate nodeTextInRange src off text in_range_spec H1 H2 H3 H4 idx). Qed.
+Proof. intros src off text H1 H2 H3 H4 res. exact (groups_interpolate nodeTextInRange src off text in_range_spec H1 H2 H3 H4 res). Qed.
 Print Assumptions C12_groups_interpolate.
 
+(* filters see those texts: what a Where() expression reads for a bound group is the text of that very node *)
+Theorem C12_filter_reads_group_text :
+  forall whole caps name nd, name <> dollar2 -> captured_by_name name caps = Some nd -> var_text name whole caps = n_text nd.
+Proof. exact filter_reads_group_text. Qed.
+
 (* choosing the no-submatch path is safe: without capture groups SubexpNames() = [""] and there is nothing to capture;
-   and the flag that chooses the path is decided correctly (C11_has_capture_correct) *)
+   and the flag that chooses the path is decided correctly (C11_has_capture_correct) by a function that is nothing but
+   the parse and that walk (fact of C12_comment_path_facts) *)
 Theorem C12_capture_fast_path_safe :
-  forall src off text idx, group_caps nodeTextInRange src off text [[]] idx = Ok [].
+  forall src off text res, group_caps nodeTextInRange src off text [[]] res = Ok [].
 Proof. exact (capture_fast_path_safe nodeTextInRange). Qed.
+
+Theorem C12_fast_path_same_match_data :
+  forall src off text m0 names msg res, Forall (fun n => n = []) names ->
+  fill nodeTextInRange src off text m0 {| c_names := names; c_groups := true; c_filter := FTrue; c_rule := msg |} res =
+  fill nodeTextInRange src off text m0 {| c_names := names; c_groups := false; c_filter := FTrue; c_rule := msg |} res.
+Proof. exact (fast_path_same_fill nodeTextInRange). Qed.
 
 Theorem C12_has_capture_correct : forall re, walk_found re false = true <-> contains_capture re.
 Proof. exact has_capture_correct. Qed.
 Print Assumptions C12_has_capture_correct.
+
+(* the statement facts of the comment-rule path, read off the source on this run *)
+Theorem C12_comment_path_facts : forallb snd gen_c12_facts = true /\ (22 <= List.length gen_c12_facts)%nat.
+Proof. exact (conj c12_facts_hold c12_facts_count). Qed.
+Print Assumptions C12_comment_path_facts.
 
 (* non-vacuity: comment "// k=v x" at offset 3 of a file; a pattern with one unnamed and one named group `val` matched
    at [3,6) of the text; a second rule that also matches does not report *)
 Example c12_example :
   let src := [120;59;32; 47;47;32;107;61;118;32;120; 10] in
   let text := [47;47;32;107;61;118;32;120] in
-  let r1 := {| c_names := [[]; []; [118;97;108]]; c_groups := true; c_filter := None;
+  let r1 := {| c_names := [[]; []; [118;97;108]]; c_groups := true; c_filter := FTrue;
                c_rule := {| r_msg := [36;118;97;108;124;36;36]; r_sugg := [36;118;97;108]; r_loc := None; r_line := 5 |} |} in
-  let r2 := {| c_names := [[]]; c_groups := false; c_filter := None;
+  let r2 := {| c_names := [[]]; c_groups := false; c_filter := FTrue;
                c_rule := {| r_msg := [36;36]; r_sugg := []; r_loc := None; r_line := 9 |} |} in
-  run_comment_rules nodeTextInRange 0 src 3 text [(r1, Some [(3, 6); (3, 4); (5, 6)]); (r2, Some [(3, 4)])]
+  run_comment_rules nodeTextInRange (fun _ _ => None) 0 src 3 text [(r1, Some [3; 6; 3; 4; 5; 6]); (r2, Some [3; 4])]
   = Ok (Some {| rep_pos := 6; rep_end := 9; rep_msg := [118;124;107;61;118]; rep_sugg := Some (6, 9, [118]); rep_line := 5 |})
   /\ sub src 3 (3 + len text) = text.
+Proof. split; vm_compute; reflexivity. Qed.
+
+(* the freshness parameter matters: on the comment "//a-b" two rules bind `v`, the first to "a" (its filter wants "z" and
+   rejects), the second to "b" (its filter wants "b"). Judged on its own submatches the second rule reports; were the
+   match data declared once before the loop (flag false), the first rule's `v` would still be in front, the second
+   rule's filter would read "a" and nothing would be reported. *)
+Example c12_stale_match_data_differs :
+  let src := [47;47;97;45;98] in
+  let r1 := {| c_names := [[]; [118]]; c_groups := true; c_filter := FTextEq [118] [122];
+               c_rule := {| r_msg := [36;118]; r_sugg := []; r_loc := None; r_line := 1 |} |} in
+  let r2 := {| c_names := [[]; [118]]; c_groups := true; c_filter := FTextEq [118] [98];
+               c_rule := {| r_msg := [36;118]; r_sugg := []; r_loc := None; r_line := 2 |} |} in
+  let rules := [(r1, Some [2; 3; 2; 3]); (r2, Some [4; 5; 4; 5])] in
+  run_loop nodeTextInRange (fun _ _ => None) 0 src 0 src true md_zero rules
+    = Ok (Some {| rep_pos := 4; rep_end := 5; rep_msg := [98]; rep_sugg := None; rep_line := 2 |}) /\
+  run_loop nodeTextInRange (fun _ _ => None) 0 src 0 src false md_zero rules = Ok None.
 Proof. split; vm_compute; reflexivity. Qed.
